@@ -1,35 +1,67 @@
+(* Wire-model driver: for each "KIND hex" line, parses the bytes with the extracted Coq readers (Wire.v) and prints
+   the same canonical dump as harness/src/common.rs, followed by
+     rt=1  iff the extracted Coq WRITER applied to the parsed value gives back exactly the bytes
+     ln=1  iff the extracted Coq LENGTH function equals the number of bytes
+   usage: wdriver [default|alt] *)
 open Wire
 let rec pos_of_int (i:int) : positive = if i = 1 then XH else if i land 1 = 0 then XO (pos_of_int (i lsr 1)) else XI (pos_of_int (i lsr 1))
 let n_of_int i = if i = 0 then N0 else Npos (pos_of_int i)
 let rec int_of_pos = function XH -> 1 | XO p -> 2 * int_of_pos p | XI p -> 2 * int_of_pos p + 1
 let int_of_n = function N0 -> 0 | Npos p -> int_of_pos p
+let rec int_of_nat = function O -> 0 | S n -> 1 + int_of_nat n
 let hexval c = match c with '0'..'9' -> Char.code c - 48 | 'a'..'f' -> Char.code c - 87 | _ -> failwith "hex"
 let bytes_of_hex s = let n = String.length s / 2 in List.init n (fun i -> n_of_int (hexval s.[2*i] * 16 + hexval s.[2*i+1]))
-let hexb (l : n list) = String.concat "" (List.map (fun b -> Printf.sprintf "%02x" (int_of_n b)) l)
+let hexb (l : n list) = let b = Buffer.create 64 in List.iter (fun x -> Buffer.add_string b (Printf.sprintf "%02x" (int_of_n x))) l; Buffer.contents b
 let rec firstn k l = if k = 0 then [] else match l with [] -> [] | x :: t -> x :: firstn (k-1) t
 let b2i b = if b then 1 else 0
-let sz = default_sizes
-let rsk k = Printf.sprintf "%d/s%s" (b2i k.wk_hyb) (hexb (firstn 8 k.wk_sk))
+let t8 ns b = ns ^ hexb (firstn 8 b)
+let rsk k = Printf.sprintf "%d/%s" (b2i k.wk_hyb) (t8 "s" k.wk_sk)
+
+let dump_structure (st : w_structure) =
+  let dims = List.map (fun (name, (ord, l)) ->
+    let attrs = List.map (fun (an, a) -> Printf.sprintf "%s/%d/%d/%d" (hexb an) (int_of_n a.wa_id) (b2i a.wa_hyb) (b2i a.wa_enc)) l in
+    let attrs = if not ord then List.sort compare attrs else attrs in
+    Printf.sprintf "%s:%d:%s" (hexb name) (b2i ord) (String.concat "," attrs)) st.ws_dims in
+  Printf.sprintf "n=%s S=%s" (match st.ws_next with Some n -> string_of_int (int_of_n n) | None -> "-") (String.concat ";" (List.sort compare dims))
+
 let () =
+  let sz = if Array.length Sys.argv > 1 && Sys.argv.(1) = "alt" then alt_sizes else default_sizes in
   try while true do
     let line = input_line stdin in
     match String.split_on_char ' ' line with
-    | ["MSK"; h] -> (match whole (r_msk sz (bytes_of_hex h)) with
-        | None -> print_endline "MSK PARSE-ERROR"
-        | Some m ->
-          let items = List.sort compare (List.map (fun (r, ch) -> Printf.sprintf "r%s=[%s]" (hexb r) (String.concat ";" (List.map (fun (f, k) -> Printf.sprintf "%d/%s" (b2i f) (rsk k)) ch))) m.wm_secrets) in
-          Printf.printf "MSK u=%d %s\n" (List.length m.wm_users) (String.concat " " items))
-    | ["MPK"; h] -> (match whole (r_mpk sz (bytes_of_hex h)) with
-        | None -> print_endline "MPK PARSE-ERROR"
-        | Some p -> Printf.printf "MPK %s\n" (String.concat " " (List.sort compare (List.map (fun (r, k) -> Printf.sprintf "r%s=%d/p%s" (hexb r) (b2i k.wp_hyb) (hexb (firstn 8 k.wp_h))) p.wq_keys))))
-    | ["USK"; h] -> (match whole (r_usk sz (bytes_of_hex h)) with
-        | None -> print_endline "USK PARSE-ERROR"
-        | Some u ->
-          let id = match u.wu_id with [] -> "none" | m :: _ -> "i" ^ hexb (firstn 8 m) in
-          let items = List.stable_sort (fun a b -> compare (fst a) (fst b)) (List.map (fun (r, ch) -> ("r" ^ hexb r, Printf.sprintf "r%s=[%s]" (hexb r) (String.concat ";" (List.map rsk ch)))) u.wu_chains) in
-          Printf.printf "USK id=%s %s\n" id (String.concat " " (List.map snd items)))
-    | ["ENC"; h] -> (match whole (r_xenc sz (bytes_of_hex h)) with
-        | None -> print_endline "ENC PARSE-ERROR"
-        | Some x -> Printf.printf "ENC %d %d\n" (b2i x.wx_hyb) (List.length x.wx_entries))
+    | [kind; h] ->
+      let bs = bytes_of_hex h in
+      let n = List.length bs in
+      (match kind with
+       | "MSK" -> (match whole (r_msk sz bs) with
+          | None -> print_endline "MSK PARSE-ERROR"
+          | Some m ->
+            let users = List.sort compare (List.map (fun id -> match id with [] -> "i-" | mk :: _ -> t8 "i" mk) m.wm_users) in
+            let items = List.sort compare (List.map (fun (r, ch) -> Printf.sprintf "r%s=%s" (hexb r) (String.concat ";" (List.map (fun (f, k) -> Printf.sprintf "%d/%s" (b2i f) (rsk k)) ch))) m.wm_secrets) in
+            Printf.printf "MSK l=%d t=%d sg=%d u=%s %s K=%s|rt=%d|ln=%d\n" 1 (List.length m.wm_tracers) (match m.wm_sign with Some _ -> 1 | None -> 0)
+              (String.concat "," users) (dump_structure m.wm_st) (String.concat " " items)
+              (b2i (wr_msk m = bs)) (b2i (int_of_nat (len_msk sz m) = n)))
+       | "MPK" -> (match whole (r_mpk sz bs) with
+          | None -> print_endline "MPK PARSE-ERROR"
+          | Some p ->
+            let items = List.sort compare (List.map (fun (r, k) -> Printf.sprintf "r%s=%d/%s" (hexb r) (b2i k.wp_hyb) (t8 "p" k.wp_h)) p.wq_keys) in
+            Printf.printf "MPK l=1 t=%d %s K=%s|rt=%d|ln=%d\n" (List.length p.wq_tpk) (dump_structure p.wq_st) (String.concat " " items)
+              (b2i (wr_mpk p = bs)) (b2i (int_of_nat (len_mpk sz p) = n)))
+       | "USK" -> (match whole (r_usk sz bs) with
+          | None -> print_endline "USK PARSE-ERROR"
+          | Some u ->
+            let id = match u.wu_id with [] -> "i-" | m :: _ -> t8 "i" m in
+            let items = List.sort compare (List.map (fun (r, ch) -> Printf.sprintf "r%s=%s" (hexb r) (String.concat ";" (List.map rsk ch))) u.wu_chains) in
+            Printf.printf "USK l=1 m=%d p=%d sg=%d id=%s K=%s|rt=%d|ln=%d\n" (List.length u.wu_id) (List.length u.wu_ps) (match u.wu_sig with Some _ -> 1 | None -> 0) id
+              (String.concat " " items) (b2i (wr_usk u = bs)) (b2i (int_of_nat (len_usk sz u) = n)))
+       | "ENC" -> (match whole (r_xenc sz bs) with
+          | None -> print_endline "ENC PARSE-ERROR"
+          | Some x -> Printf.printf "ENC l=1 t=%d h=%d n=%d|rt=%d|ln=%d\n" (List.length x.wx_c) (b2i x.wx_hyb) (List.length x.wx_entries)
+              (b2i (wr_xenc x = bs)) (b2i (int_of_nat (len_xenc sz x) = n)))
+       | "HDR" -> (match whole (r_header sz bs) with
+          | None -> print_endline "HDR PARSE-ERROR"
+          | Some h -> Printf.printf "HDR l=1 md=%d|rt=%d|ln=%d\n" (match h.wh_meta with Some m -> List.length m | None -> -1)
+              (b2i (wr_header h = bs)) (b2i (int_of_nat (len_header sz h) = n)))
+       | _ -> print_endline "??")
     | _ -> print_endline "??"
   done with End_of_file -> ()
